@@ -540,3 +540,18 @@ func Harness_E_C18b() {
 	}
 	vhReach("history-done")
 }
+
+// Harness_E_C15: with no monitor supplied no reachable instruction writes package-level state
+// (the sufficient condition for "concurrent calls do not interfere"): every store, map update,
+// in-place append or RNG step whose target is a package-level variable or anything allocated by a
+// package initialiser is a query. Two calls in a row, so that state kept between calls would also
+// show as a difference.
+func Harness_E_C15() {
+	in := vhShape()
+	vhOptions(in, 0)
+	vhCheckSharedWrites()
+	a := Layout(in.src, in.opts...)
+	b := Layout(in.src, in.opts...)
+	vhReach("returned")
+	vhSameLayout(a, b, "second-call")
+}
